@@ -38,7 +38,7 @@ pub fn aigify(gate: &GateModule) -> AigModule {
         let edge = match gate.nets[net as usize].driver {
             NetDriver::Const(false) => AigEdge::CONST0,
             NetDriver::Const(true) => AigEdge::CONST1,
-            NetDriver::PortInput | NetDriver::FfQ(_) | NetDriver::Undriven => {
+            NetDriver::PortInput | NetDriver::FfQ(_) | NetDriver::RamRead(..) | NetDriver::Undriven => {
                 // Treat any non-combinational driver as a primary input
                 // for the AIG. The caller wires the same NetId back when
                 // re-emitting cells.
@@ -163,6 +163,7 @@ pub fn aig_to_cells(aig: &AigModule, original: &GateModule) -> GateModule {
         nets: Vec::new(),
         cells: Vec::new(),
         ffs: original.ffs.clone(),
+        ram_blocks: original.ram_blocks.clone(),
     };
 
     // Preserve the original net table layout so port / FF references
